@@ -138,6 +138,8 @@ type VC struct {
 	strLits         map[string]Term
 	defs            map[string]Term
 	pureApps        []PureApp
+	pureFacts       map[string]bool
+	abstractedLoops []string // loops cut with the invariant `true` (no invariant given)
 	recording       map[string]string // heap var name -> sort, while recording accesses
 	opaqueSig       map[string][]string
 	opaqueSorts     map[string]string
